@@ -255,6 +255,16 @@ func (h *harness) wireRun(m proto.Message, ops []wireOp, f func(proto.Message) e
 
 func vb(m proto.Message) error { return m.(sdk.HasValidateBasic).ValidateBasic() }
 
+// mustPanic: a conversion the handler applies to a message that the REAL ValidateBasic accepted panicked: a failing input
+// in its own right (whatever the model says)
+func (g *mgen) mustPanic(what string, d outcome, coq string) {
+	if d.Class != "panic" {
+		return
+	}
+	g.h.fail("handler-helper", "recovered-by-baseapp", d, what+" panics on a message that ValidateBasic accepted",
+		map[string]interface{}{"stage": "model", "abstract_input": coq, "panic": d.Msg, "top_frame": d.Top})
+}
+
 type mcase struct {
 	coq string
 	obs outcome
@@ -634,6 +644,7 @@ func (g *mgen) one(kind int) []mcase {
 			for i := range stores {
 				s := stores[i]
 				d := guard(func() error { s.KeyToBytes(); s.OldValueToBytes(); s.ValueToBytes(); return nil })
+				g.mustPanic("UpdateStore.KeyToBytes/OldValueToBytes/ValueToBytes", d, scs[i])
 				out = append(out, mcase{coq: fmt.Sprintf("CMust_Store %s %v", scs[i], d.Class == "ok"), obs: d})
 			}
 		}
@@ -922,6 +933,7 @@ func (g *mgen) claimCases() []mcase {
 	if o.Class == "ok" {
 		dc := decoded.(crosschaintypes.ExternalClaim)
 		d := guard(func() error { _ = dc.GetClaimer(); _ = dc.ClaimHash(); return nil })
+		g.mustPanic("claim.GetClaimer/ClaimHash", d, claimCoq)
 		out = append(out, mcase{coq: fmt.Sprintf("CMust_Claimer (%s) %v", claimCoq, d.Class == "ok"), obs: d})
 		if bcc != nil {
 			m := decoded.(*crosschaintypes.MsgBridgeCallClaim)
@@ -934,6 +946,7 @@ func (g *mgen) claimCases() []mcase {
 				_ = m.GetTokensAddr()
 				return nil
 			})
+			g.mustPanic("MsgBridgeCallClaim address/data/memo getters", d, bccCoq)
 			out = append(out, mcase{coq: fmt.Sprintf("CMust_ClaimAddr %s %v", bccCoq, d.Class == "ok"), obs: d})
 			// many_to_one.go:BridgeTokenToBaseCoin builds sdk.NewCoin(bridgeDenom, msg.Amounts[i]) for every token
 			d2 := guard(func() error {
@@ -942,6 +955,7 @@ func (g *mgen) claimCases() []mcase {
 				}
 				return nil
 			})
+			g.mustPanic("sdk.NewCoin on MsgBridgeCallClaim amounts", d2, bccCoq)
 			out = append(out, mcase{coq: fmt.Sprintf("CMust_ClaimAmounts %s %v", bccCoq, d2.Class == "ok"), obs: d2})
 		}
 	}
@@ -1069,6 +1083,7 @@ func (g *mgen) bridgeCall() []mcase {
 			_ = dm.MustMemo()
 			return nil
 		})
+		g.mustPanic("MsgBridgeCall getters (GetSenderAddr/GetRefundAddr/GetToAddr/MustData/MustMemo)", d, coq)
 		out = append(out, mcase{coq: fmt.Sprintf("CMust_BridgeCall %s %v", coq, d.Class == "ok"), obs: d})
 	}
 	return out
@@ -1258,6 +1273,31 @@ func (g *mgen) precompileArgs() []mcase {
 	}
 }
 
+// updateStoreCases: a MsgUpdateStore with the given (class, text) triples key/old/value per store, decoded from the wire;
+// after an accepted ValidateBasic the real ...ToBytes helpers are applied to every entry.
+func (g *mgen) updateStoreCases(authority, authorityCoq string, spaces []string, fields [][3]struct{ c, v string }) []mcase {
+	h := g.h
+	var scs []string
+	var stores []fxgovtypes.UpdateStore
+	for i, f := range fields {
+		scs = append(scs, fmt.Sprintf("{| st_space_empty := %v; st_key := %s; st_old := %s; st_value := %s |}", spaces[i] == "", f[0].c, f[1].c, f[2].c))
+		stores = append(stores, fxgovtypes.UpdateStore{Space: spaces[i], Key: f[0].v, OldValue: f[1].v, Value: f[2].v})
+	}
+	m := &fxgovtypes.MsgUpdateStore{Authority: authority, UpdateStores: stores}
+	var decoded *fxgovtypes.MsgUpdateStore
+	o := h.wireRun(m, nil, func(x proto.Message) error { decoded = x.(*fxgovtypes.MsgUpdateStore); return vb(x) })
+	out := []mcase{g.cv(fmt.Sprintf("I_MsgUpdateStore {| us_authority := %s; us_stores := [%s] |}", authorityCoq, strings.Join(scs, "; ")), o)}
+	if o.Class == "ok" {
+		for i := range decoded.UpdateStores {
+			s := decoded.UpdateStores[i]
+			d := guard(func() error { s.KeyToBytes(); s.OldValueToBytes(); s.ValueToBytes(); return nil })
+			g.mustPanic("UpdateStore.KeyToBytes/OldValueToBytes/ValueToBytes", d, scs[i])
+			out = append(out, mcase{coq: fmt.Sprintf("CMust_Store %s %v", scs[i], d.Class == "ok"), obs: d})
+		}
+	}
+	return out
+}
+
 // bridgeCallArgsCase: BridgeCallArgs decoded by the real ParseMethodArgs from ABI-packed call data with nt tokens and na amounts.
 func (g *mgen) bridgeCallArgsCase(mc, mv, vc string, vv interface{}, nt, na int, rz string, rv common.Address) mcase {
 	mth := crosschaintypes.GetABI().Methods["bridgeCall"]
@@ -1410,6 +1450,23 @@ func (h *harness) stageModel() {
 					items = append(items, c.coq)
 					h.rep.Count("model:" + c.obs.Class)
 					h.rep.Case(fmt.Sprintf("model|grid|CA_BridgeCall|%d|%d|%v|%s", nt, na, rz, c.obs.Class), true)
+				}
+			}
+		}
+	}
+	// deterministic grid: MsgUpdateStore hex fields, every class representative in every field (the handler decodes them
+	// with KeyToBytes/OldValueToBytes/ValueToBytes)
+	{
+		g := &mgen{h: h, ok: 100}
+		reps := []struct{ c, v string }{{"HEmpty", ""}, {"HGood", "01"}, {"HGood", "ABcd"}, {"HBad", "0"}, {"HBad", "abc"}, {"HBad", "0x00"}, {"HBad", "-"}, {"HBad", "zz"}, {"HBad", "00 "}}
+		for fi := 0; fi < 3; fi++ {
+			for _, rp := range reps {
+				f := [3]struct{ c, v string }{{"HGood", "01"}, {"HEmpty", ""}, {"HGood", "02"}}
+				f[fi] = rp
+				for _, c := range g.updateStoreCases(h.p.accOK[0], "(BGood 0)", []string{"bank"}, [][3]struct{ c, v string }{f}) {
+					items = append(items, c.coq)
+					h.rep.Count("model:" + c.obs.Class)
+					h.rep.Case(fmt.Sprintf("model|grid|MsgUpdateStore|%d|%s|%s", fi, rp.v, c.obs.Class), true)
 				}
 			}
 		}
